@@ -155,6 +155,18 @@ func genLifePlan(e *Env) *lifePlan {
 		}
 		p.Conns = append(p.Conns, c)
 	}
+	if p.ShutdownMs >= 0 && e.Chance(40) {
+		// align the Shutdown/Stop instant with an event of one connection (its start, or the
+		// end of one of its handlers): events at the same simulated instant are interleaved
+		// by the scheduler at lock/atomic granularity, which a random instant almost never is
+		c := p.Conns[e.Int(len(p.Conns))]
+		t := c.StartMs
+		upto := e.Int(len(c.Acts) + 1)
+		for _, a := range c.Acts[:upto] {
+			t += a.HandlerMs + a.Ms
+		}
+		p.ShutdownMs = t
+	}
 	return p
 }
 
